@@ -155,6 +155,11 @@ class StrOps:
         if k not in memo:
             dv = self.ctx.fresh_int('dv')
             self.ctx.add(dv == decval_term(ch))
+            # the solver model of a recursive-function term may be partial: a model that needs it and does not replay
+            # is classified as approximate (undecided), never as an alarm
+            soft = self.ctx.__dict__.setdefault('soft', [])
+            if 'decimal value of a possibly non-ASCII digit' not in soft:
+                soft.append('decimal value of a possibly non-ASCII digit')
             self.ctx.add(z3.And(dv >= (0 if d.subset(cls('decimal')) else -1), dv <= 9))
             memo[k] = dv
         elif d.subset(cls('decimal')):
